@@ -89,7 +89,11 @@ impl Batch {
                 };
                 if !agree {
                     let op = s.model_cmd.split('\t').next().unwrap_or("");
-                    let sig = format!("{}@{}:{}!={}", op, if i == 0 { "first" } else { "later" }, class_of(&s.real_ans), class_of(m));
+                    let cls = |a: &str| -> String {
+                        let c = class_of(a);
+                        if matches!(c, "ok" | "err" | "panic" | "diverge" | "bad-op" | "bad-oracle") { c.to_string() } else { "value".to_string() }
+                    };
+                    let sig = if cls(&s.real_ans) == cls(m) { format!("{}:differs", op) } else { format!("{}:{}!={}", op, cls(&s.real_ans), cls(m)) };
                     // the case up to and including the disagreeing step
                     let script: Vec<String> = c.steps[..=i].iter().map(|(s, _)| s.real_cmd.clone()).collect();
                     rep.mismatch(&self.stream, &sig, &script.join("\n"), &s.real_ans, m);
